@@ -41,7 +41,9 @@ def run_checks(patch, props):
 
 
 def main():
-    kinds = sys.argv[1:] or ["regress", "seeded", "refactor"]
+    args = sys.argv[1:]
+    kinds = [a for a in args if a in ("regress", "seeded", "refactor")] or ["regress", "seeded", "refactor"]
+    only = [a for a in args if a not in ("regress", "seeded", "refactor")]      # name prefixes: run only these entries
     bad = 0
     if "regress" in kinds:
         exp = json.loads((V / "regress" / "expected.json").read_text())
@@ -54,7 +56,7 @@ def main():
             bad += v != "VIOLATION"
     if "seeded" in kinds:
         for sd in sorted((V / "seeded").iterdir()):
-            if not (sd / "meta.json").exists():
+            if not (sd / "meta.json").exists() or (only and not any(sd.name.startswith(o) for o in only)):
                 continue
             prop = json.loads((sd / "meta.json").read_text())["property"]
             r = run_checks(sd / "patch.diff", [prop])
@@ -63,7 +65,7 @@ def main():
             bad += v != "VIOLATION"
     if "refactor" in kinds and (V / "refactor").exists():
         for sd in sorted((V / "refactor").iterdir()):
-            if not (sd / "patch.diff").exists():
+            if not (sd / "patch.diff").exists() or (only and not any(sd.name.startswith(o) for o in only)):
                 continue
             r = run_checks(sd / "patch.diff", ALL)
             if "error" in r:
